@@ -414,7 +414,7 @@ func c15Check(t ev.TB, r *ev.Rec, s *c15Src, c c15Case, d *bbDest, out c15Outcom
 	// root-cause signature: blocks of a full last batch that are missing while everything before them is there
 	sig := "missing-block"
 
-	if c.Count%c.Limit == 0 {
+	if c.Count%c.Limit == 0 && c.Fault == c15FaultNone {
 		firstMissing := -1
 
 		for h := c.From; h <= c.To(); h++ {
